@@ -1,4 +1,5 @@
 import SfVerif.Gen.Abi
+import SfVerif.Gen.AbiTool
 import SfVerif.Gen.Enums
 /-! C15 — all descriptions of the ABI agree. The quantifier is a finite table (every function of
     the ABI × every artefact), regenerated from /repo on every run; `decide +kernel` over the whole
@@ -27,6 +28,11 @@ theorem C15_emitted_exist_in_provider : ∀ e ∈ trampolineEmits, e ∈ provide
 theorem C15_allow_list_in_provider :
     ∀ n ∈ trampolineAllowList, n ∈ names providerExports ∨ n = [109, 101, 109, 111, 114, 121] := by
   decide +kernel
+
+/-- the probed behaviour agrees with the static table: an import that is only renamed comes out under
+    the name the `IMPORTS` table gives it, and nothing stays behind under its public name -/
+theorem C15_tool_renames_agree_with_table :
+    (∀ p ∈ toolRenames, p ∈ trampolineImportPairs) ∧ toolLeftInApi = [] := by decide +kernel
 
 /-- one import module name everywhere, and it is `shopify_function_v<major>` of provider and trampoline -/
 theorem C15_module_name :
